@@ -125,8 +125,7 @@ def estimate(chk, prog):
         avg_a = sym.opt_match(stats, lambda x: call(TS + "get_average_attempts", x, key), lambda: NONE)
 
         def hist(t_, a_):
-            return ("mutated", "<chrono::time_delta::TimeDelta as core::ops::arith::AddAssign>::add_assign", 0,
-                    (t_, call(SECONDS, binop("Sub", cast(a_, "f64", "i64"), C(1, "i64"), "i64"))))
+            return call("<chrono::time_delta::TimeDelta as core::ops::arith::Add>::add", t_, call(SECONDS, binop("Sub", cast(a_, "f64", "i64"), C(1, "i64"), "i64")))
         wait = sym.opt_match(avg_t, lambda t_: sym.opt_match(avg_a, lambda a_: hist(t_, a_), lambda: default), lambda: default)
         body = sym.opt_match(cutopt, lambda c: some(plus(wait)), lambda: NONE)
         per_seq = mk_cases(s, "usize", ((((1, 54),), body), (((55, 55),), some(plus(call(SECONDS, C(10, "i64"))))), (((0, 0), (56, 2 ** 64 - 1)), NONE)))
